@@ -350,6 +350,9 @@ func c16JobCase(i int, r *rand.Rand, e *c16Env, res *core.Result) {
 		for _, k := range []string{"option.a", "option.b", "jobconfig.name", "custom.var", "job.name"} {
 			if r.Intn(3) == 0 {
 				explicit[k] = "explicit-" + k
+				if r.Intn(4) == 0 {
+					explicit[k] = "" // the submitter blanks the variable explicitly: still the submitter's value
+				}
 			}
 		}
 		if len(explicit) > 0 {
@@ -742,7 +745,25 @@ func c16JobConfigCase(i int, r *rand.Rand, e *c16Env, res *core.Result) {
 	default:
 		nw.Spec.Template.Spec.MaxAttempts = pointer.Int64(2)
 	}
-	classes = append(classes, fmt.Sprintf("update-schedule-changed=%v", changed))
+	// what the client submits as lastUpdated on the update: the stored value (read-modify-write), nothing
+	// (a re-applied manifest), a past value, or a future value
+	var submitted *metav1.Time
+	subClass := "stored"
+	if nw.Spec.Schedule != nil {
+		submitted = nw.Spec.Schedule.LastUpdated
+		switch r.Intn(5) {
+		case 0:
+			submitted, subClass = nil, "omitted"
+		case 1:
+			t := metav1.NewTime(now2.Add(-time.Duration(1+r.Intn(3000)) * time.Second).Truncate(time.Second))
+			submitted, subClass = &t, "past"
+		case 2:
+			t := metav1.NewTime(now2.Add(time.Duration(1+r.Intn(3000)) * time.Second).Truncate(time.Second))
+			submitted, subClass = &t, "future"
+		}
+		nw.Spec.Schedule.LastUpdated = submitted
+	}
+	classes = append(classes, fmt.Sprintf("update-schedule-changed=%v", changed), "submitted-lastUpdated="+subClass)
 	oraw, _ := json.Marshal(old)
 	nraw, _ := json.Marshal(nw)
 	ureq := &admissionv1.AdmissionRequest{Operation: admissionv1.Update, Kind: gvkJC, Name: nw.Name, Namespace: nw.Namespace, Object: runtime.RawExtension{Raw: nraw}, OldObject: runtime.RawExtension{Raw: oraw}}
@@ -759,22 +780,27 @@ func c16JobConfigCase(i int, r *rand.Rand, e *c16Env, res *core.Result) {
 	ug := &execution.JobConfig{}
 	_ = json.Unmarshal(uout, ug)
 	if nw.Spec.Schedule != nil {
-		var before *metav1.Time
-		if old.Spec.Schedule != nil {
-			before = old.Spec.Schedule.LastUpdated
-		}
 		after := ug.Spec.Schedule.LastUpdated
-		stamped := after != nil && (before == nil || !after.Equal(before))
-		futureKept := before != nil && !before.Time.Before(now2.Truncate(time.Second)) // a lastUpdated that is not in the past is kept
+		// stamped with "now" exactly when the schedule changed, unless the submitted value lies in the future;
+		// otherwise the submitted value is kept as it is
+		want := submitted
+		if changed && (submitted == nil || !submitted.After(now2)) {
+			t := metav1.NewTime(now2.Truncate(time.Second))
+			want = &t
+		}
 		switch {
-		case changed && !stamped && !futureKept:
-			viol("lastUpdated-not-stamped-on-change", "schedule changed at %v but lastUpdated stayed %s", now2.UTC(), tsOrNone(before))
-		case changed && stamped && !after.Time.Equal(now2.Truncate(time.Second)) && !after.Time.Equal(now2):
-			viol("lastUpdated-wrong-value", "schedule changed at %v but lastUpdated became %v", now2.UTC(), after.UTC())
-		case !changed && stamped:
-			viol("lastUpdated-stamped-without-change", "an update that does not touch the schedule moved lastUpdated from %s to %s", tsOrNone(before), tsOrNone(after))
-		case before != nil && after != nil && after.Before(before):
-			viol("lastUpdated-moved-backwards", "lastUpdated moved backwards from %v to %v", before.UTC(), after.UTC())
+		case want == nil && after != nil:
+			viol("lastUpdated-stamped-without-change", "an update that does not touch the schedule and submits no lastUpdated got one: %v", after.UTC())
+		case want != nil && after == nil:
+			viol("lastUpdated-not-stamped-on-change", "schedule changed=%v at %v, submitted lastUpdated %s (%s): the admitted object has none", changed, now2.UTC(), tsOrNone(submitted), subClass)
+		case want != nil && !after.Time.Equal(want.Time):
+			sig := "lastUpdated-wrong-value"
+			if changed && after.Time.Before(now2.Truncate(time.Second)) {
+				sig = "lastUpdated-not-stamped-on-change"
+			} else if !changed {
+				sig = "lastUpdated-stamped-without-change"
+			}
+			viol(sig, "schedule changed=%v at %v, stored lastUpdated %s, submitted %s (%s): admitted object has %v, expected %v", changed, now2.UTC(), tsOrNone(old.Spec.Schedule.LastUpdated), tsOrNone(submitted), subClass, after.UTC(), want.UTC())
 		}
 	}
 	sort.Strings(classes)
